@@ -8,6 +8,7 @@ ENV=dict(os.environ, GOFLAGS='-mod=mod', GOPROXY='off', GOSUMDB='off', GOTOOLCHA
          PATH='/opt/veriftools/go1.26.8/bin:'+os.environ['PATH'])
 refac='--refactors' in sys.argv
 ids=[a for a in sys.argv[1:] if not a.startswith('--')]
+explicit=bool(ids)
 BIN='/tmp/matrix2/glyphverif'
 os.makedirs('/tmp/matrix2',exist_ok=True)
 subprocess.run('cd /verif/checker && go build -o %s .'%BIN,shell=True,env=ENV,check=True)
@@ -25,9 +26,14 @@ def worker(w,chunk):
     for sid in chunk:
         d=f'{root}/{sid}'
         patch=d+'/patch.head.diff' if os.path.exists(d+'/patch.head.diff') else d+'/patch.diff'
-        sh('git checkout -q -- . && git clean -fdq',wt)
-        rc,out=sh(f'git apply --3way {patch}',wt)
-        rc2,un=sh('git diff --name-only --diff-filter=U',wt)
+        sh('git reset -q --hard HEAD && git clean -fdq',wt)
+        for attempt in range(3):
+            rc,out=sh(f'git apply --3way {patch}',wt)
+            rc2,un=sh('git diff --name-only --diff-filter=U',wt)
+            if rc==0 and not un.strip(): break
+            sh('git reset -q --hard HEAD && git clean -fdq',wt)
+            rc,out=sh(f'git apply {patch}',wt); un=''
+            if rc==0: break
         if rc!=0 or un.strip():
             res[sid]={'applies_on_head':False}; sh('git reset -q --hard HEAD',wt); print(sid,'no-apply',flush=True); continue
         rcb,_=sh('go build ./...',wt)
@@ -47,7 +53,7 @@ with cf.ThreadPoolExecutor(N) as ex:
     for r in ex.map(lambda a: worker(*a), enumerate(chunks)): out.update(r)
 out=dict(sorted(out.items()))
 dst='/verif/refactors/silence.json' if refac else '/verif/seeded/detection.json'
-if len(ids)<20 and os.path.exists(dst):
+if explicit and os.path.exists(dst):
     old=json.load(open(dst)); old.update(out); out=dict(sorted(old.items()))
 json.dump(out,open(dst,'w'),indent=1)
 if refac: print('silent',sum(1 for v in out.values() if v.get('silent')),'of',len(out))
